@@ -159,6 +159,31 @@ class TOpt(Ty):
         return _SORT_CACHE[self.name]
 
 
+class TData(Ty):
+    """Immutable record with a constructor (z3 datatype): e.g. slice(start, stop)."""
+
+    def __init__(self, name, fields):
+        self.name, self.fields = name, dict(fields)
+        self.order = list(fields)
+
+    def sort(self):
+        if ("data", self.name) not in _SORT_CACHE:
+            d = z3.Datatype(self.name)
+            d.declare("mk_" + self.name, *[(f"{self.name}_{f}", t.sort()) for f, t in self.fields.items()])
+            _SORT_CACHE[("data", self.name)] = d.create()
+        return _SORT_CACHE[("data", self.name)]
+
+    def get(self, term, f):
+        s = self.sort()
+        return s.accessor(0, self.order.index(f))(term)
+
+    def mk(self, *terms):
+        return self.sort().constructor(0)(*terms)
+
+
+TSLICE = TData("slice", {"start": TInt, "stop": TInt})
+
+
 class TTup(Ty):
     """Fixed-arity heterogeneous tuple. Python-level (tuple of V) unless stored in a container,
     in which case a datatype with positional fields is used."""
@@ -243,6 +268,8 @@ def parse_ty(s, recs=None):
         if head == "Tup":
             return TTup(*a)
         raise ValueError(s)
+    if s == "slice":
+        return TSLICE
     if s in TRec._REG:
         return TRec(s)
     if recs and s in recs:
